@@ -280,7 +280,9 @@ def tlaps_proof(ctx, module, deps, timeout=600):
         for m in [module] + list(deps):
             shutil.copy(os.path.join(VERIF, 'spec', m + '.tla'), d)
         t0 = _t.time()
-        p = sh(['timeout', str(timeout), 'tlapm', '--threads', str(NCPU), module + '.tla'], cwd=d)
+        # (tlapm runs SANY, which unpacks its standard modules into java.io.tmpdir: keep that inside the scratch directory)
+        p = sh(['timeout', str(timeout), 'tlapm', '--threads', str(NCPU), module + '.tla'], cwd=d,
+               env=dict(os.environ, TMPDIR=d, JAVA_TOOL_OPTIONS='-Djava.io.tmpdir=' + d))
         m = re.search(r'All (\d+) obligations? proved', p.stdout)
         ctx.design.append({'module': module, 'cfg': 'tlapm (TLA+ proof system: SMT, Zenon, Isabelle back ends)', 'obligations_proved': int(m.group(1)) if m else 0,
                            'wall_s': round(_t.time() - t0, 1), 'ok': bool(m), 'label': 'unbounded proof'})
